@@ -1,2 +1,62 @@
-(* placeholder: theorems are added below as they are proved *)
-From QV Require Import Base Fields SrcFacts Msg SrcDecisions Cache CacheSpec.
+(* Properties_C05.v — a cached record lives exactly as long as its TTL and expires exactly once. *)
+From QV Require Import Base Fields SrcFacts Msg SrcDecisions Cache CacheSpec CacheProofs.
+Local Open Scope Z_scope.
+
+(* every state reached by a script of additions (TTL <= 2 000 000 s, jitter below the bound read from
+   cache.cpp), exact advances and lookups satisfies the invariant GInv used below *)
+Theorem C05_reachable_invariant ops : Forall wf_op ops ->
+  GInv (fst (cstate_after (0, empty_cache) ops)) (snd (cstate_after (0, empty_cache) ops)).
+Proof. exact (crun_GInv ops). Qed.
+Print Assumptions C05_reachable_invariant.
+
+(* (re-)adding a record starts its lifetime now: its entry carries the schedule ending at now + TTL s *)
+Theorem C05_add_starts_lifetime now j r c : (r_ttl r <> 0)%N -> (r_ttl r <= TTL_MAX)%N ->
+  stored r (c_entries (fst (add now j r c))) = Some (mkEntry r (schedule now j (r_ttl r))).
+Proof. intros H1 H2. rewrite <- (triggers_value now j (r_ttl r) H2). exact (add_restarts now j r c H1). Qed.
+Print Assumptions C05_add_starts_lifetime.
+
+(* additions that do not replace or withdraw the record leave its entry and schedule untouched *)
+Theorem C05_unrelated_add now j r' c r e :
+  stored r (c_entries c) = Some e -> spec_match r' (e_rec e) = false ->
+  stored r (c_entries (fst (add now j r' c))) = Some e.
+Proof. exact (add_unrelated now j r' c r e). Qed.
+Print Assumptions C05_unrelated_add.
+
+(* advancing the clock to t under exact scheduling: each entry keeps exactly its triggers later than t and
+   is gone once none is left - whatever the other entries are; and the expiry notifications concerning a
+   record r are: exactly one, at the last instant of its schedule, iff that instant is <= t *)
+Theorem C05_advance now c t r :
+  GInv now c -> now <= t ->
+  let res := cstep (now, c) (CAdv t) in
+  GInv t (snd (fst res)) /\
+  c_entries (snd (fst res)) = filter_map (trim_upto t) (c_entries c) /\
+  filter is_expired (sigs_for r (snd res)) =
+    match stored r (c_entries c) with
+    | Some e => if last (e_trig e) (t + 1) <=? t then [(last (e_trig e) (t + 1), Expired (e_rec e))] else []
+    | None => []
+    end.
+Proof.
+  intros G Hnt. destruct (cadv_spec now c t r G Hnt) as (_ & G' & E & S). cbn zeta.
+  split; [exact G'|]. split; [exact E|]. rewrite S.
+  destruct (stored r (c_entries c)) as [e|] eqn:St; [|reflexivity].
+  apply expect_expired. destruct (stored_In r _ e St) as [He _]. exact (proj1 (g_wf _ _ G e He)).
+Qed.
+Print Assumptions C05_advance.
+
+(* lookups return exactly the records of the stored entries that the name/type filter selects *)
+Theorem C05_lookup name type c r :
+  In r (lookup name type c) <-> exists e, In e (c_entries c) /\ e_rec e = r /\ cache_lookup_match name type r = true.
+Proof.
+  unfold lookup. rewrite filter_In, in_map_iff. split.
+  - intros [[e [<- He]] Hm]. eauto.
+  - intros [e [He [<- Hm]]]. eauto.
+Qed.
+Print Assumptions C05_lookup.
+
+(* non-vacuity: a record with TTL 2 s added at 0 with jitter 7 is there at 1999 and gone at 2000 *)
+Example C05_example :
+  let a := set_ttl 2 (set_addr (A4 1) (set_type 1 (set_name (Some [97; 46]%N) default_record))) in
+  crun (0, empty_cache) [CAdd a 7; CAdv 1999; CLookup None 255; CAdv 2000; CLookup None 255]
+  = [OSig 1007 (ShouldQuery a) [a]; OSig 1707 (ShouldQuery a) [a]; OSig 1807 (ShouldQuery a) [a];
+     OSig 1907 (ShouldQuery a) [a]; OLookup [a]; OSig 2000 (Expired a) []; OLookup []].
+Proof. vm_compute. reflexivity. Qed.
